@@ -11,6 +11,17 @@ from typing import Optional
 from checks import pagegen as G
 
 
+import contextlib
+import io
+
+
+@contextlib.contextmanager
+def _quiet():
+    """zorg prints progress bars / banners on stdout; they are not check output."""
+    with contextlib.redirect_stdout(io.StringIO()), contextlib.redirect_stderr(io.StringIO()):
+        yield
+
+
 class Lab:
     def __init__(self):
         self.root = Path(tempfile.mkdtemp(prefix="zorgverif-lab-"))
@@ -52,14 +63,16 @@ class Lab:
         from zorg.storage.sql._engine import create_cached_engine
 
         create_cached_engine.cache_clear()  # the DB file is deleted and recreated
-        messagebus.handle(self.zdir, self.db_url, [commands.CreateDBCommand(self.zdir, update_error_file_whitelist=update_whitelist)],
-                          should_delete_existing_db=True)
+        with _quiet():
+            messagebus.handle(self.zdir, self.db_url, [commands.CreateDBCommand(self.zdir, update_error_file_whitelist=update_whitelist)],
+                              should_delete_existing_db=True)
 
     def reindex(self, paths=None):
         from zorg.domain.messages import commands
         from zorg.service import messagebus
 
-        messagebus.handle(self.zdir, self.db_url, [commands.ReindexDBCommand(zettel_dir=self.zdir, paths=[self.zdir / p for p in (paths or [])])])
+        with _quiet():
+            messagebus.handle(self.zdir, self.db_url, [commands.ReindexDBCommand(zettel_dir=self.zdir, paths=[self.zdir / p for p in (paths or [])])])
 
     # ---- index
     def compile(self, rel: str):
